@@ -221,7 +221,7 @@ def g_deferred_expr(r):
         cmpc = r.choice([0, 1, 2, 3])
         a = (lambda X, Y, D: (X if fld == 0 else Y) > cmpc)
         b, c = recipe(depth - 1), recipe(depth - 1)
-        form = r.randrange(3)
+        form = r.randrange(5)
 
         def sel(X, Y, D):
             cond, t, f = a(X, Y, D), b(X, Y, D), c(X, Y, D)
@@ -232,7 +232,16 @@ def g_deferred_expr(r):
                     return cond.if_true_then_else([t, f])
                 if form == 1:
                     return cond.if_true_then_else(t, f)
-                return cond.chooses({True: t, False: f})
+                if form == 2:
+                    return cond.chooses({True: t, False: f})
+                if form == 3:   # selection by symbolic name: dictionary form with str keys
+                    return cond.chooses({True: 'yes', False: 'no'}).chooses({'yes': t, 'no': f})
+                # keyword form: the names are matched as ascii bytes
+                return cond.chooses({True: b'yes', False: b'no'}).chooses(yes=t, no=f)
+            if form == 3:
+                return {'yes': t, 'no': f}[{True: 'yes', False: 'no'}[bool(cond)]]
+            if form == 4:
+                return {b'yes': t, b'no': f}[{True: b'yes', False: b'no'}[bool(cond)]]
             return t if bool(cond) else f
         return sel
     rec = recipe(3)
